@@ -8,9 +8,12 @@ import Grass.Proto
           @use namespace) + codemap-0.1.3 `Span::subspan/merge`, `File::find_line_col`
           (lib.rs:65-100, 238-262)
   Part 2  `impl Display for SassError`          crates/compiler/src/error.rs:122-176
-  Part 3  logger routing of @debug/@warn/@error crates/compiler/src/evaluate/visitor.rs:1041-1053
-          (`visit_debug_rule`), :1340 (`visit_error_rule`), :1584-1598 (`emit_warning`,
-          `visit_warn_rule`), :1831-1896 (`visit_for_stmt`) over a mini statement language.
+  Part 2b where the span of a directive begins  parse/stylesheet.rs:397-455,1394,1680; parse/base.rs:12-93
+  Part 3  logger routing of @debug/@warn/@error crates/compiler/src/evaluate/visitor.rs:1062-1077
+          (`visit_debug_rule`), :1379 (`visit_error_rule`), :1623-1641 (`emit_warning`,
+          `visit_warn_rule`), :1873-1944 (`visit_for_stmt`), :1834 (`visit_each_stmt`), :1946
+          (`visit_while_stmt`), :1771 (`visit_include_stmt`), :1079 (`visit_content_rule`), :723/:268/:651
+          (`visit_use_rule`, `visit_forward_rule`, `load_module`) over a mini statement language.
 
   Text is `List Char` (code points); byte offsets are UTF-8 offsets (`Char.utf8Size`), relative to
   the start of the file (codemap's global `Pos` is the file's `low` plus this offset).
@@ -244,12 +247,94 @@ def render (unicode : Bool) (msg : List Char) (loc : RenderLoc) : List Char :=
           [' ', ' '] ++ loc.name ++ [' '] ++ natStr line ++ [':'] ++ natStr col
             ++ "  root stylesheet".toList ++ ['\n'])
 
+/-! ## Part 2b — where the span of `@debug` / `@warn` / `@error` begins
+
+  The span the visitor hands to the Logger (`debug_rule.span`, `warn_rule.span`; `error_rule.span`
+  for the error) is the span of the directive's *value*: `parse_debug_rule` / `parse_warn_rule` /
+  `parse_error_rule` (parse/stylesheet.rs:397-404, 1394-1401, 448-455) store `value.span`, and
+  `parse_expression` (parse/value.rs:53, :83) computes it as `span_from(start)` with `start` the
+  cursor after `parse_at_rule` (parse/stylesheet.rs:1680-1684) consumed `@`, the name and
+  `whitespace()` (parse/base.rs:12-93: blanks, `//` and `/* */` comments).  Its begin is the
+  position of the token at `start` (lexer.rs:38-60). -/
+
+/-- base.rs:16. -/
+def isBlankTok (t : Tok) : Bool := t.kind = ' ' || t.kind = '\t' || t.kind = '\n'
+
+/-- `whitespace_without_comments` (base.rs:12-22). -/
+def skipBlank : List Tok → List Tok
+  | [] => []
+  | t :: ts => if isBlankTok t then skipBlank ts else t :: ts
+
+/-- `skip_silent_comment` after its `//` (base.rs:58-60): up to, not including, the next newline
+    token (`\r`, `\r\n` and form feed are newline tokens, lexer.rs:128-146). -/
+def skipLine : List Tok → List Tok
+  | [] => []
+  | t :: ts => if t.kind = '\n' then t :: ts else skipLine ts
+
+/-- `skip_loud_comment` after its `/*` (base.rs:80-92); `star` = the previous tokens were a run of
+    `*`.  `none` = unterminated ("expected more input."). -/
+def skipLoud : Bool → List Tok → Option (List Tok)
+  | _, [] => none
+  | star, t :: ts =>
+    if t.kind = '*' then skipLoud true ts
+    else if star && t.kind = '/' then some ts
+    else skipLoud false ts
+
+/-- `whitespace` (base.rs:24-34, `scan_comment` :36-52). -/
+def skipWs : Nat → List Tok → Option (List Tok)
+  | 0, _ => none
+  | fuel + 1, ts =>
+    match skipBlank ts with
+    | a :: b :: rest =>
+      if a.kind = '/' && b.kind = '/' then skipWs fuel (skipLine rest)
+      else if a.kind = '/' && b.kind = '*' then
+        match skipLoud false rest with
+        | some r => skipWs fuel r
+        | none => none
+      else some (a :: b :: rest)
+    | r => some r
+
+/-- Characters that continue an identifier (so that `@debugx` is not `@debug`). -/
+def isNameChar (c : Char) : Bool :=
+  c.isAlphanum || c = '-' || c = '_' || c = '\\' || c.toNat ≥ 128
+
+/-- The at-rule's name, exactly. -/
+def expectName : List Char → List Tok → Option (List Tok)
+  | [], [] => some []
+  | [], t :: ts => if isNameChar t.kind then none else some (t :: ts)
+  | _ :: _, [] => none
+  | c :: cs, t :: ts => if t.kind = c then expectName cs ts else none
+
+/-- Byte offset at which the value of the directive `@name`, whose `@` is the byte `site` of the
+    file, begins.  `none`: no such directive there, an unterminated comment, or no value. -/
+def exprStart (file : List Char) (site : Nat) (name : List Char) : Option Nat :=
+  match (tokenize file 0).dropWhile (fun t => decide (t.pos < site)) with
+  | [] => none
+  | t :: ts =>
+    if t.pos = site ∧ t.kind = '@' then
+      match expectName name ts with
+      | none => none
+      | some r =>
+        match skipWs (r.length + 1) r with
+        | some (u :: _) => some u.pos
+        | _ => none
+    else none
+
+/-- The location (0-based line, column in characters) the Logger receives for that directive:
+    `CodeMap::look_up_span(span).begin`. -/
+def eventLoc (file : List Char) (site : Nat) (name : List Char) : Option (Nat × Nat) :=
+  match exprStart file site name with
+  | some off => lookUpPos file off
+  | none => none
+
 /-! ## Part 3 — which diagnostics reach the Logger (mini statement language) -/
 
 inductive Kind where
   | debug | warn
   deriving DecidableEq, Repr, Inhabited
 
+/-- `line` identifies the directive inside its file: the byte offset of its `@` (driver op
+    `tracex`; line and column are then computed from the file's text by `eventLoc`). -/
 structure Event where
   kind : Kind
   file : Nat
@@ -257,20 +342,25 @@ structure Event where
   msg : List Char
   deriving DecidableEq, Repr, Inhabited
 
-/-- What identifies one directive: kind, file, line (the generator prints one directive per line,
-    so (file, line) also identifies the directive's span — the key of `warnings_emitted`). -/
+/-- What identifies one directive: kind, file, site (also the key of `warnings_emitted`). -/
 def Event.key (e : Event) : Kind × Nat × Nat := (e.kind, e.file, e.line)
 
 inductive Val where
   | int (n : Int)
   | str (id : Nat)               -- the quoted string "s<id>"
+  | pair (a b : Val)             -- the space-separated list `a b` (elements are not lists)
   deriving DecidableEq, Repr, Inhabited
+
+def Val.isPair : Val → Bool
+  | .pair _ _ => true
+  | _ => false
 
 inductive Expr where
   | int (n : Int)
   | str (id : Nat)
   | var (x : Nat)                -- `$v<x>`
   | call (f : Nat) (arg : Expr)  -- `f<f>(arg)`, a user-defined function
+  | pair (a b : Expr)            -- `a b`: both evaluated, left to right
   deriving Repr, Inhabited
 
 inductive Cond where
@@ -291,6 +381,13 @@ inductive Stmt where
   | incl (line : Nat) (m : Nat) (arg : Option Expr)
   | letCall (line : Nat) (e : Expr)                       -- `$tmp: <expr>;`
   | importFile (line : Nat) (file : Nat)
+  | each (line : Nat) (x : Nat) (vals : List Val) (body : Stmts)     -- `@each $v<x> in v1, v2, … {`
+  /-- `$v<x>: init; @while $v<x> < bound { body  $v<x>: $v<x> + step; }` — the counting loop. -/
+  | whileLoop (line : Nat) (x : Nat) (init bound step : Int) (body : Stmts)
+  /-- `@use "<file>" as *;` (`forward = false`) or `@forward "<file>";`. -/
+  | loadMod (line : Nat) (file : Nat) (forward : Bool)
+  | inclContent (line : Nat) (m : Nat) (arg : Option Expr) (content : Stmts)  -- `@include m(arg) { … }`
+  | content (line : Nat)                                                      -- `@content;`
 inductive Stmts where
   | nil
   | cons (s : Stmt) (rest : Stmts)
@@ -298,17 +395,33 @@ end
 
 instance : Inhabited Stmts := ⟨.nil⟩
 
+/-- Where code runs: the file (for locations) and the module whose members it sees (`@import`
+    changes the file but not the module; `@use`/`@forward` load a file as its own module). -/
+structure Ctx where
+  file : Nat
+  mod : Nat
+  deriving DecidableEq, Repr, Inhabited
+
+abbrev Env := List (Nat × Val)
+
 structure MixinDef where
   param : Option Nat
   body : Stmts
-  file : Nat
+  ctx : Ctx
+  hasContent : Bool            -- `AstMixin::has_content`: an `@content` occurs in the declaration
 
 structure FuncDef where
   param : Nat
   body : Stmts
   retLine : Nat
   ret : Expr
-  file : Nat
+  ctx : Ctx
+
+/-- `CallableContentBlock` (visitor.rs:1793): the block and the environment of the `@include`. -/
+structure Content where
+  body : Stmts
+  env : Env
+  ctx : Ctx
 
 /-- Configuration: `quiet` is `Options::quiet`; `warnDedupBySpan = true` is the behaviour found on
     the pinned tree (D12: `if self.warnings_emitted.insert(span) { … }` around `visit_warn_rule`). -/
@@ -323,13 +436,20 @@ structure St where
   emitted : List (Nat × Nat)               -- `warnings_emitted`
   log : List Event                         -- what reached the Logger, oldest first
   visited : List (Kind × Nat × Nat)        -- ghost: every completed @debug/@warn execution
+  loaded : List Nat                        -- files already loaded as modules (`self.modules`)
+  vis : List (Nat × Nat)                   -- (a, b): members owned by module b are visible in module a
+  fwd : List (Nat × Nat)                   -- (a, b): module a forwards the members owned by module b
+  contents : List (Option Content)         -- `env.content` of the running mixins, innermost first
 
-def St.init : St := { mixins := [], funcs := [], emitted := [], log := [], visited := [] }
+def St.init : St :=
+  { mixins := [], funcs := [], emitted := [], log := [], visited := [], loaded := [], vis := [],
+    fwd := [], contents := [] }
 
 inductive Err where
   | user (file line : Nat) (msg : List Char)     -- @error
   | undefinedVar (file line : Nat)
   | undefinedMixin (file line : Nat)
+  | noContentAccepted (file line : Nat)          -- "Mixin doesn't accept a content block."
   deriving DecidableEq, Repr, Inhabited
 
 inductive Res (α : Type) where
@@ -343,30 +463,30 @@ def intStr (n : Int) : List Char :=
   | .ofNat k => natStr k
   | .negSucc k => '-' :: natStr (k + 1)
 
-/-- `Value::inspect` on the two value shapes of the fragment; `to_css_string` (used by @warn)
-    agrees with it on them (quoted strings keep their quotes). -/
+/-- `Value::inspect` on the value shapes of the fragment; `to_css_string` (used by @warn) agrees
+    with it on them (quoted strings keep their quotes, also inside a list). -/
 def inspect : Val → List Char
   | .int n => intStr n
   | .str id => ['"', 's'] ++ natStr id ++ ['"']
+  | .pair a b => inspect a ++ [' '] ++ inspect b
 
-/-- The text `@debug` and `@warn` hand to the Logger (visitor.rs `visit_debug_rule` /
-    `visit_warn_rule`, as repaired): a string is logged as its text, WITHOUT quotes; every other
+/-- The text `@debug` and `@warn` hand to the Logger (visitor.rs:1067-1071 `visit_debug_rule`,
+    :1633-1636 `visit_warn_rule`): a string is logged as its text, WITHOUT quotes; every other
     value as `inspect` / `to_css_string` prints it.  `@error` keeps `inspect` (with quotes). -/
 def logText : Val → List Char
   | .int n => intStr n
   | .str id => ['s'] ++ natStr id
-
-abbrev Env := List (Nat × Val)
+  | .pair a b => inspect (.pair a b)
 
 def lookupVar (env : Env) (x : Nat) : Option Val := (env.find? (·.1 == x)).map (·.2)
 
-/-- `visit_debug_rule` after a successful evaluation / under quiet (visitor.rs:1041-1053). -/
+/-- `visit_debug_rule` after a successful evaluation / under quiet (visitor.rs:1062-1077). -/
 def St.doDebug (cfg : Cfg) (st : St) (file line : Nat) (msg : List Char) : St :=
   { st with
     log := if cfg.quiet then st.log else st.log ++ [⟨.debug, file, line, msg⟩]
     visited := st.visited ++ [(.debug, file, line)] }
 
-/-- `emit_warning` (visitor.rs:1584-1590) for an executed `@warn`. -/
+/-- `emit_warning` (visitor.rs:1623-1629) for an executed `@warn`. -/
 def St.doWarn (cfg : Cfg) (st : St) (file line : Nat) (msg : List Char) : St :=
   { st with
     log := if cfg.quiet then st.log else st.log ++ [⟨.warn, file, line, msg⟩]
@@ -380,91 +500,147 @@ def St.skipWarn (st : St) (file line : Nat) : St :=
 def St.defMixin (st : St) (m : Nat) (d : MixinDef) : St := { st with mixins := (m, d) :: st.mixins }
 def St.defFunc (st : St) (f : Nat) (d : FuncDef) : St := { st with funcs := (f, d) :: st.funcs }
 
-/-- `visit_for_stmt` (visitor.rs:1831-1896): direction, inclusive adjustment, iteration count. -/
+/-- Leaving a style rule: the mixins and functions declared inside it go out of scope. -/
+def St.restoreDefs (st old : St) : St := { st with mixins := old.mixins, funcs := old.funcs }
+
+/-- `with_content` (visitor.rs:1801). -/
+def St.pushContent (st : St) (c : Option Content) : St := { st with contents := c :: st.contents }
+def St.popContent (st : St) : St := { st with contents := st.contents.drop 1 }
+def St.setContents (st : St) (cs : List (Option Content)) : St := { st with contents := cs }
+
+/-- A file has been loaded as a module (visitor.rs:651 `load_module`, the `self.modules` cache). -/
+def St.markLoaded (st : St) (k : Nat) : St := { st with loaded := k :: st.loaded }
+
+/-- `@use "k" as *` in module `a`: the members of `k` and everything `k` forwards become visible. -/
+def St.addVis (st : St) (a k : Nat) : St :=
+  { st with vis := (a, k) :: ((st.fwd.filter (·.1 == k)).map (fun p => (a, p.2)) ++ st.vis) }
+
+/-- `@forward "k"` in module `a`. -/
+def St.addFwd (st : St) (a k : Nat) : St :=
+  { st with fwd := (a, k) :: ((st.fwd.filter (·.1 == k)).map (fun p => (a, p.2)) ++ st.fwd) }
+
+def St.canSee (st : St) (mod owner : Nat) : Bool := mod == owner || st.vis.contains (mod, owner)
+
+def St.findMixin (st : St) (mod m : Nat) : Option MixinDef :=
+  (st.mixins.find? (fun p => p.1 == m && st.canSee mod p.2.ctx.mod)).map (·.2)
+
+def St.findFunc (st : St) (mod f : Nat) : Option FuncDef :=
+  (st.funcs.find? (fun p => p.1 == f && st.canSee mod p.2.ctx.mod)).map (·.2)
+
+def Res.popContent {α : Type} : Res α → Res α
+  | .ok a st => .ok a st.popContent
+  | r => r
+
+/-- `visit_for_stmt` (visitor.rs:1873-1944): direction, inclusive adjustment, iteration count. -/
 def forDir (frm to : Int) : Int := if frm > to then -1 else 1
 def forCount (frm to : Int) (inclusive : Bool) : Nat :=
   let to' := if inclusive then to + forDir frm to else to
   (to' - frm).natAbs
 
 mutual
+/-- Does an `@content` occur in the declaration (parse flag `FOUND_CONTENT_RULE`,
+    parse/stylesheet.rs:392)? -/
+def Stmt.mentionsContent : Stmt → Bool
+  | .content _ => true
+  | .forLoop _ _ _ _ _ b => b.mentionsContent
+  | .ifElse _ _ t e => t.mentionsContent || e.mentionsContent
+  | .block b => b.mentionsContent
+  | .each _ _ _ b => b.mentionsContent
+  | .whileLoop _ _ _ _ _ b => b.mentionsContent
+  | .inclContent _ _ _ b => b.mentionsContent
+  | _ => false
+def Stmts.mentionsContent : Stmts → Bool
+  | .nil => false
+  | .cons s r => s.mentionsContent || r.mentionsContent
+end
+
+mutual
 /-- Expression evaluation (function calls run their body, which may log). -/
-def evalExpr (cfg : Cfg) (prog : List Stmts) : Nat → Nat → Nat → Env → Expr → St → Res Val
+def evalExpr (cfg : Cfg) (prog : List Stmts) : Nat → Ctx → Nat → Env → Expr → St → Res Val
   | 0, _, _, _, _, _ => .outOfFuel
-  | fuel + 1, file, line, env, e, st =>
+  | fuel + 1, ctx, line, env, e, st =>
     match e with
     | .int n => .ok (.int n) st
     | .str id => .ok (.str id) st
     | .var x =>
       match lookupVar env x with
       | some v => .ok v st
-      | none => .err (.undefinedVar file line) st
+      | none => .err (.undefinedVar ctx.file line) st
     | .call f arg =>
-      match evalExpr cfg prog fuel file line env arg st with
+      match evalExpr cfg prog fuel ctx line env arg st with
       | .ok v st1 =>
-        match (st1.funcs.find? (·.1 == f)).map (·.2) with
+        match st1.findFunc ctx.mod f with
         | none => .unsupported            -- plain CSS function: outside the fragment
         | some d =>
-          match execStmts cfg prog fuel d.file [(d.param, v)] d.body st1 with
-          | .ok _ st2 => evalExpr cfg prog fuel d.file d.retLine [(d.param, v)] d.ret st2
+          match execStmts cfg prog fuel d.ctx [(d.param, v)] d.body st1 with
+          | .ok _ st2 => evalExpr cfg prog fuel d.ctx d.retLine [(d.param, v)] d.ret st2
           | .err e st2 => .err e st2
           | .outOfFuel => .outOfFuel
           | .unsupported => .unsupported
       | r => r
+    | .pair a b =>
+      match evalExpr cfg prog fuel ctx line env a st with
+      | .ok va st1 =>
+        match evalExpr cfg prog fuel ctx line env b st1 with
+        | .ok vb st2 => if va.isPair || vb.isPair then .unsupported else .ok (.pair va vb) st2
+        | r => r
+      | r => r
 
-def execStmt (cfg : Cfg) (prog : List Stmts) : Nat → Nat → Env → Stmt → St → Res Unit
+def execStmt (cfg : Cfg) (prog : List Stmts) : Nat → Ctx → Env → Stmt → St → Res Unit
   | 0, _, _, _, _ => .outOfFuel
-  | fuel + 1, file, env, s, st =>
+  | fuel + 1, ctx, env, s, st =>
     match s with
     | .debug line e =>
-      -- visitor.rs:1042: under quiet the expression is not even evaluated
-      if cfg.quiet then .ok () (st.doDebug cfg file line [])
+      -- visitor.rs:1063: under quiet the expression is not even evaluated
+      if cfg.quiet then .ok () (st.doDebug cfg ctx.file line [])
       else
-        match evalExpr cfg prog fuel file line env e st with
-        | .ok v st1 => .ok () (st1.doDebug cfg file line (logText v))
+        match evalExpr cfg prog fuel ctx line env e st with
+        | .ok v st1 => .ok () (st1.doDebug cfg ctx.file line (logText v))
         | .err e st1 => .err e st1
         | .outOfFuel => .outOfFuel
         | .unsupported => .unsupported
     | .warn line e =>
-      if cfg.warnDedupBySpan && st.emitted.contains (file, line) then .ok () (st.skipWarn file line)
+      if cfg.warnDedupBySpan && st.emitted.contains (ctx.file, line) then .ok () (st.skipWarn ctx.file line)
       else
-        match evalExpr cfg prog fuel file line env e st with
-        | .ok v st1 => .ok () (st1.doWarn cfg file line (logText v))
+        match evalExpr cfg prog fuel ctx line env e st with
+        | .ok v st1 => .ok () (st1.doWarn cfg ctx.file line (logText v))
         | .err e st1 => .err e st1
         | .outOfFuel => .outOfFuel
         | .unsupported => .unsupported
     | .error line e =>
-      match evalExpr cfg prog fuel file line env e st with
-      | .ok v st1 => .err (.user file line (inspect v)) st1
+      match evalExpr cfg prog fuel ctx line env e st with
+      | .ok v st1 => .err (.user ctx.file line (inspect v)) st1
       | .err e st1 => .err e st1
       | .outOfFuel => .outOfFuel
       | .unsupported => .unsupported
     | .forLoop _ x frm to inclusive body =>
-      execFor cfg prog fuel file env x body frm (forDir frm to) (forCount frm to inclusive) st
+      execFor cfg prog fuel ctx env x body frm (forDir frm to) (forCount frm to inclusive) st
     | .ifElse line c thn els =>
       match c with
-      | .lit b => execStmts cfg prog fuel file env (if b then thn else els) st
+      | .lit b => execStmts cfg prog fuel ctx env (if b then thn else els) st
       | .varEq x n =>
         match lookupVar env x with
-        | none => .err (.undefinedVar file line) st
-        | some v => execStmts cfg prog fuel file env (if v = .int n then thn else els) st
-    | .block body => execStmts cfg prog fuel file env body st
-    | .mixinDef m p body => .ok () (st.defMixin m ⟨p, body, file⟩)
-    | .funcDef f p body rl ret => .ok () (st.defFunc f ⟨p, body, rl, ret, file⟩)
-    | .incl line m arg =>
-      match (st.mixins.find? (·.1 == m)).map (·.2) with
-      | none => .err (.undefinedMixin file line) st
-      | some d =>
-        match d.param, arg with
-        | none, none => execStmts cfg prog fuel d.file [] d.body st
-        | some x, some a =>
-          match evalExpr cfg prog fuel file line env a st with
-          | .ok v st1 => execStmts cfg prog fuel d.file [(x, v)] d.body st1
-          | .err e st1 => .err e st1
-          | .outOfFuel => .outOfFuel
-          | .unsupported => .unsupported
-        | _, _ => .unsupported
+        | none => .err (.undefinedVar ctx.file line) st
+        | some v => execStmts cfg prog fuel ctx env (if v = .int n then thn else els) st
+    | .block body =>
+      match execStmts cfg prog fuel ctx env body st with
+      | .ok _ st1 => .ok () (st1.restoreDefs st)
+      | r => r
+    | .mixinDef m p body => .ok () (st.defMixin m ⟨p, body, ctx, body.mentionsContent⟩)
+    | .funcDef f p body rl ret => .ok () (st.defFunc f ⟨p, body, rl, ret, ctx⟩)
+    | .incl line m arg => execIncl cfg prog fuel ctx line env m arg none st
+    | .inclContent line m arg body => execIncl cfg prog fuel ctx line env m arg (some ⟨body, env, ctx⟩) st
+    | .content _ =>
+      -- visit_content_rule (visitor.rs:1079-1101): the block runs in the environment of its
+      -- `@include`, where `@content` means the content that was current there
+      match st.contents with
+      | some c :: rest =>
+        match execStmts cfg prog fuel c.ctx c.env c.body (st.setContents rest) with
+        | .ok _ st1 => .ok () (st1.setContents (some c :: rest))
+        | r => r
+      | _ => .ok () st
     | .letCall line e =>
-      match evalExpr cfg prog fuel file line env e st with
+      match evalExpr cfg prog fuel ctx line env e st with
       | .ok _ st1 => .ok () st1
       | .err e st1 => .err e st1
       | .outOfFuel => .outOfFuel
@@ -472,35 +648,94 @@ def execStmt (cfg : Cfg) (prog : List Stmts) : Nat → Nat → Env → Stmt → 
     | .importFile _ k =>
       match prog[k]? with
       | none => .unsupported
-      | some body => execStmts cfg prog fuel k env body st
+      | some (.cons (.loadMod _ _ _) _) => .unsupported   -- `@import` of a file with `@use`: outside
+      | some body => execStmts cfg prog fuel ⟨k, ctx.mod⟩ env body st
+    | .each _ x vals body => execEach cfg prog fuel ctx env x body vals st
+    | .whileLoop _ x init bound step body => execWhile cfg prog fuel ctx env x body init bound step st
+    | .loadMod _ k forward =>
+      -- visit_use_rule (visitor.rs:723) / visit_forward_rule (:268) → load_module (:651) → execute
+      -- (:550): a file is executed the first time it is loaded, in its own environment
+      if k ≤ ctx.mod then .unsupported         -- only later files (no module loops)
+      else if st.loaded.contains k then
+        .ok () (if forward then st.addFwd ctx.mod k else st.addVis ctx.mod k)
+      else
+        match prog[k]? with
+        | none => .unsupported
+        | some body =>
+          match execStmts cfg prog fuel ⟨k, k⟩ [] body st with
+          | .ok _ st1 =>
+            .ok () (if forward then (st1.markLoaded k).addFwd ctx.mod k else (st1.markLoaded k).addVis ctx.mod k)
+          | r => r
 
-def execStmts (cfg : Cfg) (prog : List Stmts) : Nat → Nat → Env → Stmts → St → Res Unit
+def execStmts (cfg : Cfg) (prog : List Stmts) : Nat → Ctx → Env → Stmts → St → Res Unit
   | 0, _, _, _, _ => .outOfFuel
-  | fuel + 1, file, env, ss, st =>
+  | fuel + 1, ctx, env, ss, st =>
     match ss with
     | .nil => .ok () st
     | .cons s rest =>
-      match execStmt cfg prog fuel file env s st with
-      | .ok _ st1 => execStmts cfg prog fuel file env rest st1
+      match execStmt cfg prog fuel ctx env s st with
+      | .ok _ st1 => execStmts cfg prog fuel ctx env rest st1
       | r => r
 
 /-- The `while i != to` loop of `visit_for_stmt`, `count` iterations left. -/
-def execFor (cfg : Cfg) (prog : List Stmts) : Nat → Nat → Env → Nat → Stmts → Int → Int → Nat → St → Res Unit
+def execFor (cfg : Cfg) (prog : List Stmts) : Nat → Ctx → Env → Nat → Stmts → Int → Int → Nat → St → Res Unit
   | 0, _, _, _, _, _, _, _, _ => .outOfFuel
-  | fuel + 1, file, env, x, body, i, dir, count, st =>
+  | fuel + 1, ctx, env, x, body, i, dir, count, st =>
     match count with
     | 0 => .ok () st
     | count + 1 =>
-      match execStmts cfg prog fuel file ((x, .int i) :: env) body st with
-      | .ok _ st1 => execFor cfg prog fuel file env x body (i + dir) dir count st1
+      match execStmts cfg prog fuel ctx ((x, .int i) :: env) body st with
+      | .ok _ st1 => execFor cfg prog fuel ctx env x body (i + dir) dir count st1
       | r => r
+
+/-- `visit_each_stmt` (visitor.rs:1834-1871), one variable, the values still to visit. -/
+def execEach (cfg : Cfg) (prog : List Stmts) : Nat → Ctx → Env → Nat → Stmts → List Val → St → Res Unit
+  | 0, _, _, _, _, _, _ => .outOfFuel
+  | fuel + 1, ctx, env, x, body, vals, st =>
+    match vals with
+    | [] => .ok () st
+    | v :: vs =>
+      match execStmts cfg prog fuel ctx ((x, v) :: env) body st with
+      | .ok _ st1 => execEach cfg prog fuel ctx env x body vs st1
+      | r => r
+
+/-- `visit_while_stmt` (visitor.rs:1946-1965) for the counting loop: the condition `$v<x> < bound`
+    is evaluated before every iteration; the body's last statement adds `step`.  Nothing bounds
+    the number of iterations but the fuel. -/
+def execWhile (cfg : Cfg) (prog : List Stmts) : Nat → Ctx → Env → Nat → Stmts → Int → Int → Int → St → Res Unit
+  | 0, _, _, _, _, _, _, _, _ => .outOfFuel
+  | fuel + 1, ctx, env, x, body, i, bound, step, st =>
+    if i < bound then
+      match execStmts cfg prog fuel ctx ((x, .int i) :: env) body st with
+      | .ok _ st1 => execWhile cfg prog fuel ctx env x body (i + step) bound step st1
+      | r => r
+    else .ok () st
+
+/-- `visit_include_stmt` (visitor.rs:1771-1824) with the content block `cnt` (if any). -/
+def execIncl (cfg : Cfg) (prog : List Stmts) : Nat → Ctx → Nat → Env → Nat → Option Expr → Option Content → St → Res Unit
+  | 0, _, _, _, _, _, _, _ => .outOfFuel
+  | fuel + 1, ctx, line, env, m, arg, cnt, st =>
+    match st.findMixin ctx.mod m with
+    | none => .err (.undefinedMixin ctx.file line) st
+    | some d =>
+      if cnt.isSome && !d.hasContent then .err (.noContentAccepted ctx.file line) st
+      else
+        match d.param, arg with
+        | none, none => (execStmts cfg prog fuel d.ctx [] d.body (st.pushContent cnt)).popContent
+        | some x, some a =>
+          match evalExpr cfg prog fuel ctx line env a st with
+          | .ok v st1 => (execStmts cfg prog fuel d.ctx [(x, v)] d.body (st1.pushContent cnt)).popContent
+          | .err e st1 => .err e st1
+          | .outOfFuel => .outOfFuel
+          | .unsupported => .unsupported
+        | _, _ => .unsupported
 end
 
 /-- Run a project: `prog[0]` is the entry file. -/
 def run (cfg : Cfg) (fuel : Nat) (prog : List Stmts) : Res Unit :=
   match prog with
   | [] => .unsupported
-  | entry :: _ => execStmts cfg prog fuel 0 [] entry St.init
+  | entry :: _ => execStmts cfg prog fuel ⟨0, 0⟩ [] entry St.init
 
 def Res.st? {α : Type} : Res α → Option St
   | .ok _ st => some st
@@ -509,6 +744,36 @@ def Res.st? {α : Type} : Res α → Option St
 
 /-- The code as it stands now. -/
 def Cfg.current (quiet : Bool) : Cfg := { quiet := quiet, warnDedupBySpan := false }
+
+/-! ### programs the interpreter is meant for (what grass's parser accepts of the constructs) -/
+
+mutual
+/-- `@content` only inside a mixin declaration (`inMixin`); `@use`/`@forward` never nested;
+    `@import` (`imp`) only at the top level of a file or in style rules there — inside a mixin, a
+    function or a control directive the parser answers "This at-rule is not allowed here."
+    (parse/stylesheet.rs `parse_import_rule` via `parse_disallowed_at_rule`). -/
+def Stmt.wf (inMixin imp : Bool) : Stmt → Bool
+  | .content _ => inMixin
+  | .loadMod _ _ _ => false
+  | .importFile _ _ => imp
+  | .forLoop _ _ _ _ _ b => b.wf inMixin false
+  | .ifElse _ _ t e => t.wf inMixin false && e.wf inMixin false
+  | .block b => b.wf inMixin imp
+  | .each _ _ _ b => b.wf inMixin false
+  | .whileLoop _ _ _ _ _ b => b.wf inMixin false
+  | .inclContent _ _ _ b => b.wf inMixin false
+  | .mixinDef _ _ b => b.wf true false
+  | .funcDef _ _ b _ _ => b.wf false false
+  | _ => true
+def Stmts.wf (inMixin imp : Bool) : Stmts → Bool
+  | .nil => true
+  | .cons s r => s.wf inMixin imp && r.wf inMixin imp
+end
+
+/-- A file: `@use`/`@forward` first (parse/stylesheet.rs `IS_USE_ALLOWED`), then the rest. -/
+def Stmts.wfTop : Stmts → Bool
+  | .cons (.loadMod _ _ _) r => r.wfTop
+  | ss => ss.wf false true
 
 /-! ## driver entry points -/
 open Grass.Proto
@@ -526,11 +791,13 @@ def ruleOfStr (s : String) : Option ExpandRule :=
 /-! ### reading a program (prefix notation, one token per item)
 
     stmts := "[" stmt* "]"
-    stmt  := D line expr | W line expr | E line expr | F line x from to incl stmts
-           | I line cond stmts stmts | B stmts | M m param stmts | U f param stmts retline expr
-           | N line m arg | L line expr | P line file
-    expr  := i n | s id | v x | c f expr          cond := t | f | q x n
-    param := _ | x                                 arg := _ | expr -/
+    stmt  := D site expr | W site expr | E site expr | F site x from to incl stmts
+           | I site cond stmts stmts | B stmts | M m param stmts | U f param stmts retsite expr
+           | N site m arg | L site expr | P site file
+           | C site x n val^n stmts | H site x init bound step stmts | Y site file fwd
+           | K site m arg stmts | T site
+    expr  := i n | s id | v x | c f expr | p expr expr      cond := t | f | q x n
+    val   := i n | s id        param := _ | x               arg := _ | expr -/
 
 def readExpr : Nat → List String → Option (Expr × List String)
   | 0, _ => none
@@ -543,6 +810,13 @@ def readExpr : Nat → List String → Option (Expr × List String)
       match f.toNat?, readExpr fuel r with
       | some f, some (a, r') => some (.call f a, r')
       | _, _ => none
+    | "p" :: r =>
+      match readExpr fuel r with
+      | some (a, r1) =>
+        match readExpr fuel r1 with
+        | some (b, r2) => some (.pair a b, r2)
+        | none => none
+      | none => none
     | _ => none
 
 def readCond : List String → Option (Cond × List String)
@@ -553,6 +827,22 @@ def readCond : List String → Option (Cond × List String)
     | some x, some n => some (.varEq x n, r)
     | _, _ => none
   | _ => none
+
+def readVals : Nat → List String → Option (List Val × List String)
+  | 0, r => some ([], r)
+  | n + 1, "i" :: k :: r =>
+    match k.toInt?, readVals n r with
+    | some k, some (vs, r') => some (.int k :: vs, r')
+    | _, _ => none
+  | n + 1, "s" :: k :: r =>
+    match k.toNat?, readVals n r with
+    | some k, some (vs, r') => some (.str k :: vs, r')
+    | _, _ => none
+  | _ + 1, _ => none
+
+def readArg (fuel : Nat) : List String → Option (Option Expr × List String)
+  | "_" :: r => some (none, r)
+  | toks => (readExpr fuel toks).map (fun (e, r) => (some e, r))
 
 mutual
 def readStmt : Nat → List String → Option (Stmt × List String)
@@ -601,18 +891,40 @@ def readStmt : Nat → List String → Option (Stmt × List String)
         | some rl, some (e, r2) => some (.funcDef f p b rl e, r2)
         | _, _ => none
       | _, _, _ => none
-    | "N" :: l :: m :: "_" :: r =>
-      match l.toNat?, m.toNat? with
-      | some l, some m => some (.incl l m none, r)
-      | _, _ => none
     | "N" :: l :: m :: r =>
-      match l.toNat?, m.toNat?, readExpr (fuel + 1) r with
-      | some l, some m, some (e, r') => some (.incl l m (some e), r')
+      match l.toNat?, m.toNat?, readArg (fuel + 1) r with
+      | some l, some m, some (a, r') => some (.incl l m a, r')
       | _, _, _ => none
+    | "K" :: l :: m :: r =>
+      match l.toNat?, m.toNat?, readArg (fuel + 1) r with
+      | some l, some m, some (a, r1) =>
+        match readStmts fuel r1 with
+        | some (b, r2) => some (.inclContent l m a b, r2)
+        | none => none
+      | _, _, _ => none
+    | "T" :: l :: r => l.toNat?.map (fun l => (.content l, r))
     | "P" :: l :: k :: r =>
       match l.toNat?, k.toNat? with
       | some l, some k => some (.importFile l k, r)
       | _, _ => none
+    | "Y" :: l :: k :: fw :: r =>
+      match l.toNat?, k.toNat?, parseBool? fw with
+      | some l, some k, some fw => some (.loadMod l k fw, r)
+      | _, _, _ => none
+    | "C" :: l :: x :: n :: r =>
+      match l.toNat?, x.toNat?, n.toNat? with
+      | some l, some x, some n =>
+        match readVals n r with
+        | some (vs, r1) =>
+          match readStmts fuel r1 with
+          | some (b, r2) => some (.each l x vs b, r2)
+          | none => none
+        | none => none
+      | _, _, _ => none
+    | "H" :: l :: x :: a :: b :: c :: r =>
+      match l.toNat?, x.toNat?, a.toInt?, b.toInt?, c.toInt?, readStmts fuel r with
+      | some l, some x, some a, some b, some c, some (body, r') => some (.whileLoop l x a b c body, r')
+      | _, _, _, _, _, _ => none
     | _ => none
 
 def readStmts : Nat → List String → Option (Stmts × List String)
@@ -646,30 +958,90 @@ def readFiles : Nat → List String → Option (List Stmts)
       | some (f, r) => (readFiles fuel r).map (f :: ·)
       | none => none
 
+def readTexts : Nat → List String → Option (List (List Char) × List String)
+  | 0, r => some ([], r)
+  | n + 1, h :: r =>
+    match charsOfHex h, readTexts n r with
+    | some t, some (ts, r') => some (t :: ts, r')
+    | _, _ => none
+  | _ + 1, [] => none
+
 def kindStr : Kind → String
   | .debug => "debug" | .warn => "warn"
 
-def eventStr (e : Event) : String := s!"{kindStr e.kind}:{e.file}:{e.line}:{hexOfChars e.msg}"
+def kindName : Kind → List Char
+  | .debug => "debug".toList | .warn => "warn".toList
 
-def errStr : Err → String
-  | .user f l m => s!"err:user:{f}:{l}:{hexOfChars m}"
-  | .undefinedVar f l => s!"err:undefvar:{f}:{l}:-"
-  | .undefinedMixin f l => s!"err:undefmixin:{f}:{l}:-"
+/-- 1-based `line:col` of the value of the directive `@name` at byte `site` of file `f`. -/
+def locStr1 (texts : List (List Char)) (f site : Nat) (name : List Char) : Option String :=
+  match texts[f]? with
+  | none => none
+  | some t => (eventLoc t site name).map (fun p => s!"{p.1 + 1}:{p.2 + 1}")
 
-def resStr (r : Res Unit) : String :=
+/-- 1-based line of byte `site` of file `f`. -/
+def lineStr1 (texts : List (List Char)) (f site : Nat) : Option String :=
+  match texts[f]? with
+  | none => none
+  | some t => (lookUpPos t site).map (fun p => s!"{p.1 + 1}")
+
+def eventStr (texts : List (List Char)) (e : Event) : Option String :=
+  (locStr1 texts e.file e.line (kindName e.kind)).map
+    (fun l => s!"{kindStr e.kind}:{e.file}:{l}:{hexOfChars e.msg}")
+
+def errStr (texts : List (List Char)) : Err → Option String
+  | .user f l m => (locStr1 texts f l "error".toList).map (fun p => s!"err:user:{f}:{p}:{hexOfChars m}")
+  | .undefinedVar f l => (lineStr1 texts f l).map (fun p => s!"err:undefvar:{f}:{p}:-:-")
+  | .undefinedMixin f l => (lineStr1 texts f l).map (fun p => s!"err:undefmixin:{f}:{p}:-:-")
+  | .noContentAccepted f l => (lineStr1 texts f l).map (fun p => s!"err:nocontent:{f}:{p}:-:-")
+
+def eventsStr (texts : List (List Char)) : List Event → Option String
+  | [] => some ""
+  | e :: es =>
+    match eventStr texts e, eventsStr texts es with
+    | some a, some b => some (" " ++ a ++ b)
+    | _, _ => none
+
+def resStr (texts : List (List Char)) (r : Res Unit) : String :=
   match r with
-  | .ok _ st => s!"ok ok {st.visited.length} |" ++ String.join (st.log.map (fun e => " " ++ eventStr e))
-  | .err e st => s!"ok {errStr e} {st.visited.length} |" ++ String.join (st.log.map (fun e => " " ++ eventStr e))
+  | .ok _ st =>
+    match eventsStr texts st.log with
+    | some evs => s!"ok ok {st.visited.length} |" ++ evs
+    | none => "unsupported location"
+  | .err e st =>
+    match errStr texts e, eventsStr texts st.log with
+    | some es, some evs => s!"ok {es} {st.visited.length} |" ++ evs
+    | _, _ => "unsupported location"
   | .outOfFuel => "unsupported fuel"
   | .unsupported => "unsupported"
 
 def locStr (p : (Nat × Nat) × (Nat × Nat)) : String := s!"{p.1.1} {p.1.2} {p.2.1} {p.2.2}"
 
 def handle : List String → String
-  -- trace <quiet> <dedup> <file0 stmts> <file1 stmts> …
-  | "trace" :: q :: d :: rest =>
-    match parseBool? q, parseBool? d, readFiles (rest.length + 2) rest with
-    | some q, some d, some prog => resStr (run { quiet := q, warnDedupBySpan := d } 4000 prog)
+  -- tracex <quiet> <dedup> <n> <hex text of file 0> … <hex text of file n-1> <file0 stmts> … :
+  -- outcome and events with 1-based line:col computed from the texts
+  | "tracex" :: q :: d :: n :: rest =>
+    match parseBool? q, parseBool? d, n.toNat? with
+    | some q, some d, some n =>
+      match readTexts n rest with
+      | some (texts, rest') =>
+        match readFiles (rest'.length + 2) rest' with
+        | some prog =>
+          if prog.length = n && prog.all Stmts.wfTop then
+            resStr texts (run { quiet := q, warnDedupBySpan := d } 4000 prog)
+          else "unsupported ill-formed"
+        | none => "bad-op"
+      | none => "bad-op"
+    | _, _, _ => "bad-op"
+  -- evloc <hexfile> <site> <hexname> : where the value of the directive at byte `site` begins
+  | ["evloc", f, site, name] =>
+    match charsOfHex f, site.toNat?, charsOfHex name with
+    | some f, some site, some name =>
+      match exprStart f site name with
+      | none => "ok none"
+      | some off =>
+        match lookUpPos f off with
+        | some p => s!"ok {off} {p.1 + 1} {p.2 + 1}"
+        | none => s!"ok splits-char {off}"
     | _, _, _ => "bad-op"
   -- locok <hexfile> bl bc el ec : P̂ on a reported location
   | ["locok", f, bl, bc, el, ec] =>
